@@ -1,7 +1,9 @@
 import Bgpfu.Thm.C05
 /-!
 # C18 — abandoning one reply future does not disturb other outstanding requests
-(theorems are being added; see C05 for the shared model)
+Reachable states of the current code: `St.run {} acts`, `acts` arbitrary — drop actions may occur anywhere in
+`acts`, so every C05 theorem already covers schedules with drops; the theorems here spell out what a
+drop does. See C05 for the shared model and `Lemmas/Session.lean` for the invariant.
 -/
 namespace Session
 
@@ -18,5 +20,102 @@ theorem drop_never_loses_current (s : St) (f : Fid) (h : ∀ fu ∈ s.futs, ∀ 
     · simp [St.releaseRx, St.withPc]; split <;> rfl
     · simp [St.releaseRx, St.withPc]; split <;> rfl
     · rename_i m hpc; exact absurd hpc (h fu hmem m)
+
+/-- **a drop never leaves the receive lock with the dropped future**: dropping the lock owner hands
+the lock to the first waiter, or frees it if nobody waits. -/
+theorem drop_releases_lock (acts : List Act) (f : Fid) (ho : (St.run {} acts).rxOwner = some f) :
+    let s := St.run {} acts
+    (s.drop f).rxOwner = s.rxQueue.head? ∧ (s.drop f).rxQueue = s.rxQueue.tail ∧ (s.drop f).rxOwner ≠ some f :=
+  drop_owner (run_inv acts) ho
+
+/-- … and whatever is dropped, in whatever state: afterwards the lock is again free only if nobody
+waits, its owner and all waiters are live futures, the dropped one is none of them. -/
+theorem drop_keeps_lock_sound (acts : List Act) (f : Fid) :
+    let s := (St.run {} acts).drop f
+    (s.rxOwner = none → s.rxQueue = []) ∧
+    (∀ g, s.rxOwner = some g → ∃ fu ∈ s.live, fu.fid = g) ∧
+    (∀ g ∈ s.rxQueue, ∃ fu ∈ s.live, fu.fid = g) ∧
+    s.rxOwner ≠ some f ∧ f ∉ s.rxQueue := by
+  intro s
+  have hs : s = St.run {} (acts ++ [.drop f]) := by simp [St.run, St.step, s]
+  have h := rx_lock_never_leaked (acts ++ [.drop f])
+  rw [← hs] at h
+  have hnl : ∀ fu ∈ s.live, fu.fid ≠ f := fun fu hfu => ((drop_live f (run_inv acts)).mp hfu).2
+  refine ⟨h.1, ?_, ?_, ?_, ?_⟩
+  · intro g hg; obtain ⟨fu, h1, h2, _⟩ := h.2.1 g hg; exact ⟨fu, h1, h2⟩
+  · intro g hg; obtain ⟨_, fu, h1, h2, _⟩ := h.2.2.1 g hg; exact ⟨fu, h1, h2⟩
+  · intro hg; obtain ⟨fu, h1, h2, _⟩ := h.2.1 f hg; exact hnl fu h1 h2
+  · intro hg; obtain ⟨_, fu, h1, h2, _⟩ := h.2.2.1 f hg; exact hnl fu h1 h2
+
+/-- **a drop loses nothing** (current code): no message is lost, the request map and the transport
+are untouched — in every reachable state, for every future, at whatever suspension point. -/
+theorem drop_loses_nothing (acts : List Act) (f : Fid) :
+    let s := St.run {} acts
+    (s.drop f).lost = s.lost ∧ (s.drop f).slots = s.slots ∧ (s.drop f).inbox = s.inbox := by
+  intro s
+  have e : s = St.run {} acts := rfl
+  clear_value s; subst e
+  have hinv : Inv (St.run {} acts) := run_inv acts
+  refine ⟨drop_never_loses_current _ f ?_, (drop_frame _ f).1, (drop_frame _ f).2.1⟩
+  intro fu hfu m
+  exact (hinv.1.noWaitReq fu.fid fu (hinv.find hfu)).2 m
+
+/-- **survivors complete**: drop any futures `ds` in a reachable `Clean` state (C05 `all_complete`);
+the state stays `Clean`, its live futures are exactly the live futures that were not dropped, and
+fair rounds complete every one of them with its own reply. -/
+theorem survivors_complete (acts : List Act) (ds : List Fid) (hc : Clean (St.run {} acts)) (n : Nat)
+    (hn : (St.run {} acts).inbox.length + (St.run {} acts).live.length ≤ n) :
+    let s := St.run {} acts
+    let s' := ds.foldl St.drop s
+    Clean s' ∧ (∀ fu, fu ∈ s'.live ↔ fu ∈ s.live ∧ fu.fid ∉ ds) ∧
+    (St.rounds n s').live = [] ∧
+    ∀ f0 ∈ s.live, f0.fid ∉ ds → ∀ f ∈ (St.rounds n s').futs, f.fid = f0.fid →
+      ∃ m, s.reply f0.id = some m ∧ m.id = some f0.id ∧ f.pc = .done (.ok m.tag) := by
+  intro s s'
+  have e : s = St.run {} acts := rfl
+  clear_value s; subst e
+  have hinv : Inv (St.run {} acts) := run_inv acts
+  have hs' : s' = St.run {} (acts ++ ds.map .drop) := by rw [run_append, ← drops_run]
+  have hclean : Clean s' := drops_clean ds hinv hc
+  have hlive : ∀ fu, fu ∈ s'.live ↔ fu ∈ (St.run {} acts).live ∧ fu.fid ∉ ds := fun fu => drops_live ds hinv
+  have hframe := drops_frame ds (St.run {} acts)
+  have hlen : s'.inbox.length + s'.live.length ≤ n := by
+    have h1 : s'.live.length ≤ (St.run {} acts).live.length := drops_live_length ds hinv
+    have h2 : s'.inbox.length = (St.run {} acts).inbox.length := by rw [show s'.inbox = _ from hframe.1]
+    omega
+  have hall := all_complete (acts ++ ds.map .drop) (hs' ▸ hclean) n (hs' ▸ hlen)
+  rw [← hs'] at hall
+  refine ⟨hclean, hlive, hall.1, ?_⟩
+  intro f0 hf0 hnd f hf hfid
+  obtain ⟨m, hm, hid, hpc⟩ := hall.2.2 f0 ((hlive f0).mpr ⟨hf0, hnd⟩) f hf hfid
+  refine ⟨m, ?_, hid, hpc⟩
+  have h1 : s'.inbox = (St.run {} acts).inbox := hframe.1
+  have h2 : s'.slots = (St.run {} acts).slots := hframe.2
+  simpa [St.reply, St.slot, h1, h2] using hm
+
+/-- **the session stays usable**: in every reachable state — whatever was dropped before — with no
+`rpc()` blocked, the transport open and writable, a new `rpc()` succeeds: it gets a fresh
+message-id (never sent before, no other future has it), a fresh pending slot, and a new reply
+future in `start`; nothing else changes. -/
+theorem session_usable_after_drop (acts : List Act) (hr : (St.run {} acts).rpc = none)
+    (hc : (St.run {} acts).closed = false) (hg : (St.run {} acts).gateOpen = true) :
+    let s := St.run {} acts
+    s.send true = ({ s with nextId := s.nextId + 1, slots := s.slots ++ [(s.nextId + 1, .pending)],
+                            sent := s.sent ++ [s.nextId + 1],
+                            futs := s.futs ++ [{ fid := s.nextFid, id := s.nextId + 1, pc := .start }],
+                            nextFid := s.nextFid + 1 }, .sendOk s.nextFid (s.nextId + 1)) ∧
+    (s.nextId + 1) ∉ s.sent ∧ (∀ fu ∈ s.futs, fu.id ≠ s.nextId + 1 ∧ fu.fid ≠ s.nextFid) ∧
+    s.slot (s.nextId + 1) = none ∧ (s.send true).1.slot (s.nextId + 1) = some .pending :=
+  open_send (run_inv acts) hr hc hg
+
+/-! non-vacuity: a reachable state in which the lock owner is dropped while another future waits -/
+example : let s := St.run {} [.send true, .send true, .poll 0, .poll 1]
+    s.rxOwner = some 0 ∧ s.rxQueue = [1] ∧ (s.drop 0).rxOwner = some 1 ∧ (s.drop 0).rxQueue = [] := by decide
+
+/-- a clean reachable state, two of three futures dropped (one of them reading), the survivor completes -/
+example : let s := St.run {} [.send true, .send true, .send true, .poll 0, .poll 1, .deliver ⟨some 1, 11, true⟩,
+    .deliver ⟨some 2, 22, true⟩, .deliver ⟨some 3, 33, true⟩]
+    Clean s ∧ ((St.rounds 6 ([0, 1].foldl St.drop s)).futs.map (·.pc)) = [.dropped, .dropped, .done (.ok 33)] := by
+  decide
 
 end Session
